@@ -441,7 +441,7 @@ func c15GenPath(t *rapid.T) string {
 	}
 	long := n >= 10
 	for i := 0; i < n; i++ {
-		if long && rapid.IntRange(0, 19).Draw(t, "riskyPart") != 0 {
+		if long && rapid.IntRange(0, 2*n-1).Draw(t, "riskyPart") != 0 { // about one risky segment in every second long entry
 			// long entries consist mostly of harmless segments (otherwise some segment always gets them rejected and the
 			// rules are never seen at work on a long entry); the separators stay mixed
 			s += rapid.SampledFrom([]string{"a", "core", "dir", "team1", "sub-dir", "x_y", "v2", "é"}).Draw(t, "plainPart")
